@@ -420,6 +420,7 @@ def _replay_prepare(pm, case_name, cfg, model):
     if v is not None:
       env[k] = float(Fr(v))
   with C.use(c):
+    c.for_native = True
     case.setup(cfg, c)
     args, kw = case.build(cfg)
     return describe_call(ct, args, kw, env)
@@ -439,6 +440,7 @@ def _replay_evaluate(pm, case_name, cfg, model, desc, nat, tol=1e-7):
     if v is not None:
       env[k] = float(Fr(v))
   with C.use(c):
+    c.for_native = True
     case.setup(cfg, c)
     args, kw = case.build(cfg)
     fresh = ct.fresh_out(*args, **kw)
@@ -479,7 +481,7 @@ def matches_known(k, g, cfg):
     return False
   if k.get('fn') and k['fn'] != g['fn']:
     return False
-  if k.get('clause_prefix') and not any(g['name'].startswith(p) or (':' + p) in g['name']
+  if k.get('clause_prefix') and not any(p in g['name']
                                          for p in ([k['clause_prefix']] if isinstance(k['clause_prefix'], str)
                                                    else k['clause_prefix'])):
     return False
@@ -579,7 +581,12 @@ def conclude(pm, tier, seed, results, t0, extra=None, run_jobs=None, opts=None):
   # --- replay refutations natively
   violations = []
   known_hits = collections.OrderedDict()
-  os.makedirs(os.path.join(OUT, 'replays', prop_id), exist_ok=True)
+  rdir = os.path.join(OUT, 'replays', prop_id)
+  if os.path.isdir(rdir):
+    for fn in os.listdir(rdir):
+      if fn.endswith('.json'):
+        os.unlink(os.path.join(rdir, fn))
+  os.makedirs(rdir, exist_ok=True)
   # group: one replay per (case, cfg, model)
   # phase 1: descriptors; phase 2: one native process; phase 3: evaluate clauses on real output
   prepared = []
@@ -615,6 +622,7 @@ def conclude(pm, tier, seed, results, t0, extra=None, run_jobs=None, opts=None):
   # proved there => the edit was harmless for the property (no alarm); a refutation there gives
   # an input for the public API, replayed natively.
   lifted_ok = []
+  new_refuted = []
   groups = collections.OrderedDict()
   for g in refuted:
     rep = g.get('replay')
@@ -644,28 +652,34 @@ def conclude(pm, tier, seed, results, t0, extra=None, run_jobs=None, opts=None):
         continue
       bad = [x for x in r['goals'] if x['status'] == 'refuted']
       if bad:
-        b0 = bad[0]
+        # the lifted refutations replace the modular ones: they are obligations of the public
+        # function, with models over its real inputs
         for g in groups[key]:
-          g['lifted'] = {'case': key[0], 'clause': b0['name'], 'model': b0.get('model'),
-                         'margin': b0.get('margin')}
-        try:
-          second.append((groups[key], key[0], _replay_prepare(pm, key[0], r['cfg'], b0.get('model')),
-                         r['cfg'], b0))
-        except Exception:  # pylint: disable=broad-except
-          pass
+          g['lifted'] = 'refuted-inline'
+        seen_l = set()
+        for b0 in bad:
+          fam = b0['name'].split('[')[0]
+          if fam in seen_l:
+            continue
+          seen_l.add(fam)
+          b0 = dict(b0)
+          b0['_cfg'] = r['cfg']
+          b0['_case'] = key[0]
+          b0['lifted_from'] = [g['fn'] + ':' + g['name'] for g in groups[key]][:5]
+          b0['replay'] = None
+          new_refuted.append(b0)
+          try:
+            second.append((b0, _replay_prepare(pm, key[0], r['cfg'], b0.get('model'))))
+          except Exception:  # pylint: disable=broad-except
+            pass
     if second:
       try:
-        nats2 = run_native([d for _, _, d, _, _ in second])
-        for (gs, lc, d, lcfg, b0), n2 in zip(second, nats2):
-          r2 = _replay_evaluate(pm, lc, lcfg, b0.get('model'), d, n2)
-          if r2.get('failing'):
-            r2['note'] = ('input found by re-verifying %s with its callees inlined' % lc)
-            for g in gs:
-              g['replay'] = r2
-              g['model'] = b0.get('model')
+        nats2 = run_native([d for _, d in second])
+        for (b0, d), n2 in zip(second, nats2):
+          b0['replay'] = _replay_evaluate(pm, b0['_case'], b0['_cfg'], b0.get('model'), d, n2)
       except Exception as e:  # pylint: disable=broad-except
         errors.append({'case': 'replay', 'cfg': {}, 'error': 'native replay (lift) failed: %s' % e})
-  refuted = [g for g in refuted if g.get('lifted') != 'proved-inline']
+  refuted = [g for g in refuted if g.get('lifted') not in ('proved-inline', 'refuted-inline')] + new_refuted
   for g in refuted:
     cfg = g['_cfg']
     kn = [k for k in known if matches_known(k, g, cfg)]
